@@ -297,7 +297,25 @@ func Validate(c *Case, tr *Trace, vo VOpts) *VResult {
 					v.add(CSpuriousCycle, i, "Provide rejected as a cycle although the graph is acyclic under the most permissive reading: %v", out.Err)
 				}
 			}
-			if vo.ValidSigs {
+			unspecTouch := false
+			if kind == KCtor {
+				for _, k := range mf.Keys() {
+					if m.Unspec[mf.Home][k] {
+						unspecTouch = true
+					}
+				}
+				for _, k := range ownInAs(op.F, op.O) {
+					for _, g := range m.Scopes[mf.Home].Ctors {
+						if g.SlotFor(k) >= 0 {
+							unspecTouch = true
+						}
+					}
+				}
+				if unspecTouch {
+					v.Labels["as-own-type-zone"] = true
+				}
+			}
+			if vo.ValidSigs && !unspecTouch {
 				clause := CVerdictProvide
 				if kind == KDeco {
 					clause = CVerdictDecorate
@@ -318,6 +336,7 @@ func Validate(c *Case, tr *Trace, vo VOpts) *VResult {
 			}
 			if accepted {
 				if kind == KCtor {
+					m.MarkUnspec(mf)
 					m.AddCtor(mf)
 				} else {
 					m.AddDeco(mf)
@@ -374,12 +393,12 @@ func (v *VResult) validateInvoke(c *Case, tr *Trace, rt *RT, i int, op Op, out O
 		}
 	}
 	ii.BystanderScopes = len(bsScopes)
-	zoneSkip := ii.Zones.DecoCycle || ii.Zones.DecoNoProvider || ii.Zones.CtorCycle
+	zoneSkip := ii.Zones.DecoCycle || ii.Zones.DecoNoProvider || ii.Zones.CtorCycle || ii.Zones.AsOwn
 	if zoneSkip {
 		v.ZoneSkips++
 	}
 	if ii.Zones.DecoCycle && strictKF {
-		zoneSkip = ii.Zones.DecoNoProvider || ii.Zones.CtorCycle
+		zoneSkip = ii.Zones.DecoNoProvider || ii.Zones.CtorCycle || ii.Zones.AsOwn
 	}
 	if ii.Zones.DecoCycle && !strictKF {
 		// known finding KF-DECO-CYCLE: nothing about this Invoke or the
